@@ -104,6 +104,40 @@ Proof.
   rewrite nth_opt_rev by lia. rewrite Hl. apply nth_opt_firstn. lia.
 Qed.
 
+(** * Slots of a ring *)
+
+Lemma set_nth_length {A} : forall (l : list A) i v, length (set_nth l i v) = length l.
+Proof.
+  induction l as [|a l IH]; intros i v; [reflexivity|].
+  destruct i as [|i]; cbn [set_nth length]; [reflexivity|]. rewrite IH. reflexivity.
+Qed.
+
+Lemma nth_opt_set_nth_eq {A} : forall (l : list A) i v,
+  (i < length l)%nat -> nth_opt (set_nth l i v) i = Some v.
+Proof.
+  induction l as [|a l IH]; intros i v H; cbn [length] in H; [lia|].
+  destruct i as [|i]; cbn [set_nth nth_opt]; [reflexivity|]. apply IH. lia.
+Qed.
+
+Lemma nth_opt_set_nth_neq {A} : forall (l : list A) i j v,
+  i <> j -> nth_opt (set_nth l i v) j = nth_opt l j.
+Proof.
+  induction l as [|a l IH]; intros i j v H; [reflexivity|].
+  destruct i as [|i], j as [|j]; cbn [set_nth nth_opt]; try reflexivity; [lia|].
+  apply IH. lia.
+Qed.
+
+Lemma mod_shift_neq a e m : 0 < e -> e < m -> (a + e) mod m <> a mod m.
+Proof.
+  intros H1 H2 H.
+  pose proof (N.div_mod a m ltac:(lia)) as Ha.
+  pose proof (N.div_mod (a + e) m ltac:(lia)) as Hb.
+  rewrite H in Hb.
+  set (q1 := a / m) in *. set (q2 := (a + e) / m) in *. set (r := a mod m) in *.
+  assert (Hq : q2 <= q1 \/ q1 + 1 <= q2) by lia.
+  destruct Hq as [Hq|Hq]; nia.
+Qed.
+
 (** * What [mask] keeps, counted *)
 
 Lemma mask_count_spec {A} : forall bs c (l : list A),
@@ -648,7 +682,135 @@ Section View.
       rewrite skipn_length, scan_spec_length. lia.
     - intros d H1 H2 H3. change (N.to_nat 1) with 1%nat in Hn. apply Hn; assumption.
   Qed.
+
+  (** ** the ring buffer of [window + 1] slots *)
+  Definition ring_ok (k : nat) (ring : list (list N)) : Prop :=
+    length ring = S (N.to_nat (window p)) /\
+    forall d, 1 <= d -> d <= window p -> (N.to_nat d <= k)%nat ->
+      nth_opt ring (ring_slot p (N.of_nat k - d)) = nth_opt g (k - N.to_nat d).
+
+  Lemma ring_slot_lt x (ring : list (list N)) :
+    length ring = S (N.to_nat (window p)) -> (ring_slot p x < length ring)%nat.
+  Proof.
+    intros ->. unfold ring_slot.
+    pose proof (N.mod_lt x (window p + 1) ltac:(lia)). lia.
+  Qed.
+
+  Lemma ring_slot_neq a e :
+    0 < e -> e <= window p -> ring_slot p (a + e) <> ring_slot p a.
+  Proof.
+    intros H1 H2 H. unfold ring_slot in H.
+    apply (mod_shift_neq a e (window p + 1)); lia.
+  Qed.
+
+  Lemma ring_ok_step k cur ring :
+    nth_opt g k = Some cur -> ring_ok k ring ->
+    ring_ok (S k) (set_nth ring (ring_slot p (N.of_nat k)) cur).
+  Proof.
+    intros Hk [Hl Hr]. split; [rewrite set_nth_length; exact Hl|].
+    intros d H1 Hw Hle.
+    destruct (N.eq_dec d 1) as [E|E].
+    - subst d. replace (N.of_nat (S k) - 1) with (N.of_nat k) by lia.
+      rewrite nth_opt_set_nth_eq by (apply ring_slot_lt; exact Hl).
+      change (N.to_nat 1) with 1%nat. cbn [Nat.sub]. rewrite Nat.sub_0_r. symmetry. exact Hk.
+    - replace (N.of_nat (S k) - d) with (N.of_nat k - (d - 1)) by lia.
+      rewrite nth_opt_set_nth_neq.
+      + rewrite (Hr (d - 1)) by lia. f_equal. lia.
+      + replace (N.of_nat k) with (N.of_nat k - (d - 1) + (d - 1)) at 1 by lia.
+        apply ring_slot_neq; lia.
+  Qed.
+
+  Lemma view_ring_decode_nodes : forall m k ring,
+    (k + m <= length g)%nat -> ring_ok k ring ->
+    ring_decode_nodes St rd p m (N.of_nat k) ring (st k)
+    = Some (firstn m (skipn k g), st (k + m)).
+  Proof.
+    induction m as [|m IH]; intros k ring Hkm Hp.
+    - cbn [ring_decode_nodes firstn]. rewrite Nat.add_0_r. reflexivity.
+    - destruct (nth_opt_lt g k) as [cur Hk]; [lia|].
+      cbn [ring_decode_nodes].
+      rewrite (view_decode_node k cur).
+      + cbn [obind].
+        replace (N.of_nat k + 1) with (N.of_nat (S k)) by lia.
+        rewrite (IH (S k)); [|lia|apply ring_ok_step; assumption].
+        cbn [obind]. rewrite (skipn_nth_opt g k cur Hk). cbn [firstn].
+        replace (S k + m)%nat with (k + S m)%nat by lia. reflexivity.
+      + exact Hk.
+      + intros d rl Hs Hnz Hle Hrl.
+        destruct (Hview k cur Hk) as (d' & rl' & Hs' & _ & Hw & _).
+        rewrite Hs in Hs'. injection Hs' as <-.
+        unfold ring_lookup.
+        destruct (d =? 0) eqn:E0; [apply N.eqb_eq in E0; contradiction|].
+        destruct (window p <? d) eqn:E1; [apply N.ltb_lt in E1; lia|].
+        destruct (N.of_nat k <? d) eqn:E2; [apply N.ltb_lt in E2; lia|].
+        cbn [orb]. destruct Hp as [_ Hr]. rewrite (Hr d) by lia. exact Hrl.
+  Qed.
+
+  Lemma ring_new_length : length (ring_new p) = S (N.to_nat (window p)).
+  Proof. unfold ring_new. apply repeat_length. Qed.
+
+  Lemma view_next_successors :
+    next_successors_all St rd p (length g) (st 0) = Some g.
+  Proof.
+    unfold next_successors_all.
+    change (ring_decode_nodes St rd p (length g) 0 (ring_new p) (st 0))
+      with (ring_decode_nodes St rd p (length g) (N.of_nat 0) (ring_new p) (st 0)).
+    rewrite (view_ring_decode_nodes (length g) 0 (ring_new p)); [|lia|].
+    - cbn [obind skipn]. rewrite firstn_all. reflexivity.
+    - split; [apply ring_new_length|]. intros d H1 H2 H3. lia.
+  Qed.
+
+  (** the ascending pre-fill of the ring by random access *)
+  Lemma view_ring_prefill rafuel k j0 : forall fuel j ring,
+    (k <= length g)%nat -> (k <= rafuel)%nat ->
+    (j0 <= j)%nat -> (j <= k)%nat -> (k <= j0 + N.to_nat (window p))%nat ->
+    (k - j < fuel)%nat ->
+    length ring = S (N.to_nat (window p)) ->
+    (forall i, (j0 <= i)%nat -> (i < j)%nat ->
+               nth_opt ring (ring_slot p (N.of_nat i)) = nth_opt g i) ->
+    exists ring', ring_prefill St rd seek p rafuel fuel (N.of_nat j) (N.of_nat k) ring = Some ring' /\
+      length ring' = S (N.to_nat (window p)) /\
+      forall i, (j0 <= i)%nat -> (i < k)%nat ->
+                nth_opt ring' (ring_slot p (N.of_nat i)) = nth_opt g i.
+  Proof.
+    induction fuel as [|f IH]; intros j ring Hk Hra Hj0 Hjk Hw Hf Hl Hr; [lia|].
+    cbn [ring_prefill].
+    destruct (N.of_nat k <=? N.of_nat j) eqn:E.
+    - apply N.leb_le in E. exists ring. split; [reflexivity|]. split; [exact Hl|].
+      intros i H1 H2. apply Hr; lia.
+    - apply N.leb_gt in E.
+      destruct (nth_opt_lt g j) as [l Hlj]; [lia|].
+      rewrite (view_ra rafuel j l Hlj) by lia. cbn [obind].
+      replace (N.of_nat j + 1) with (N.of_nat (S j)) by lia.
+      apply IH; try lia.
+      + rewrite set_nth_length. exact Hl.
+      + intros i H1 H2. destruct (Nat.eq_dec i j) as [->|Hne].
+        * rewrite nth_opt_set_nth_eq by (apply ring_slot_lt; exact Hl). symmetry. exact Hlj.
+        * rewrite nth_opt_set_nth_neq; [apply Hr; lia|].
+          replace (N.of_nat j) with (N.of_nat i + N.of_nat (j - i)) by lia.
+          apply ring_slot_neq; lia.
+  Qed.
+
+  Lemma view_iter_from_ring fuel k :
+    (k <= length g)%nat -> (length g < fuel)%nat ->
+    iter_from_ring St rd seek p fuel (length g) (N.of_nat k) = Some (skipn k g).
+  Proof.
+    intros Hk Hf. unfold iter_from_ring.
+    rewrite Hseek by exact Hk. cbn [obind].
+    set (j0 := (k - N.to_nat (N.min (window p) (N.of_nat k)))%nat).
+    replace (N.of_nat k - N.min (window p) (N.of_nat k)) with (N.of_nat j0) by (unfold j0; lia).
+    destruct (view_ring_prefill fuel k j0 fuel j0 (ring_new p)) as (ring & Hp & Hl & Hr);
+      try (unfold j0; lia).
+    { apply ring_new_length. }
+    rewrite Hp. cbn [obind]. rewrite Nat2N.id.
+    rewrite (view_ring_decode_nodes (length g - k) k ring); [|lia|].
+    - cbn [obind]. rewrite firstn_all2; [reflexivity|]. rewrite skipn_length. lia.
+    - split; [exact Hl|]. intros d H1 H2 H3.
+      replace (N.of_nat k - d) with (N.of_nat (k - N.to_nat d)) by lia.
+      apply Hr; unfold j0; lia.
+  Qed.
 End View.
+
 
 (** * The encoder's bit stream, seen node by node *)
 
@@ -850,6 +1012,21 @@ Proof.
   eapply view_iter_from with (sel := sel) (st := est le cs p g sel rest); solve_view.
 Qed.
 
+Theorem iter_from_ring_eq : S_iter_from_ring_eq.
+Proof.
+  intros le cs p g sel rest k Hok Hinc Hv Hk. unfold acc_iter_from_ring.
+  rewrite enc_offs_length. cbn [Nat.sub]. rewrite Nat.sub_0_r.
+  eapply view_iter_from_ring with (sel := sel) (st := est le cs p g sel rest); solve_view.
+Qed.
+
+Theorem next_successors_eq : S_next_successors_eq.
+Proof.
+  intros le cs p g sel rest Hok Hinc Hv. unfold acc_next_successors.
+  change (enc_stream le cs p g sel rest) with (est le cs p g sel rest 0).
+  eapply view_next_successors with (sel := sel) (st := est le cs p g sel rest)
+    (seek := seek_bits (enc_offs le cs p g sel) (enc_stream le cs p g sel rest)); solve_view.
+Qed.
+
 Theorem seq_iter_from_eq : S_seq_iter_from_eq.
 Proof.
   intros le cs p g sel rest k Hok Hinc Hv. unfold seq_iter_from, enc_stream.
@@ -875,3 +1052,5 @@ Print Assumptions ra_eq_seq.
 Print Assumptions ra_fuel.
 Print Assumptions iter_from_eq.
 Print Assumptions offdeg_from_eq.
+Print Assumptions iter_from_ring_eq.
+Print Assumptions next_successors_eq.
